@@ -386,6 +386,16 @@ class World:
             self.classes["set:limbo(move)"] += 1
             self.moved_root = full
         self.trace.append(record)
+        # frame condition: which resolved in-tree aliases may this replacement re-target?  Only those that point at the
+        # replaced object (set_member) — plus, on the pinned tree, aliases still *listed* in the replaced object's
+        # `aliases` although they were re-targeted elsewhere (stale entries: observed, not asserted).  Replacing an
+        # alias, or replacing through __setitem__, re-targets nothing.
+        frame = None
+        if old is not None:
+            allowed = {id(a) for a in followers} | {id(real)}
+            if api == "set_member" and old.kind != "alias":
+                allowed |= {id(a) for a in list(old_real.aliases.values())}
+            frame = [(ar, ar.target) for ar in (self.real[a.id] for a in self.tree_aliases()) if ar.resolved and id(ar) not in allowed]
 
         if api == "set_member":
             call("op-raises", base_real.set_member, k, real, what=f"set_member({k!r}, {conc})")
@@ -427,6 +437,18 @@ class World:
         # ---- clause: aliases that pointed at the replaced object follow the replacement
         fails = []
         final_real = self.real[final.id]
+        for ar, before in frame or ():
+            self.classes["untouched-aliases-checked"] += 1
+            if not ar.resolved or ar.target is not before:
+                fails.append(
+                    Fail(
+                        "untouched-alias-keeps-target",
+                        self.opdesc,
+                        f"alias {ar.path!r} pointed at {getattr(before, 'path', before)!r}, which was not replaced; after replacing "
+                        f"{'.'.join(full)!r} ({old.kind}) it targets {(ar.target_path if ar.resolved else None)!r}",
+                    )
+                )
+                break
         for ar in followers:
             self.classes["followers-checked"] += 1
             if ar is final_real:
